@@ -487,12 +487,12 @@ func (p *Parser) parseBuffer(buf []byte, last bool) (err error) {
 				if digitMap[b] != numDigit {
 					break
 				}
-				p.num.Frac = p.num.Frac*10 + uint64(b-'0')
-				p.num.Div *= 10.0
 				if gen.BigLimit <= p.num.Div {
-					p.num.FillBig()
+					p.num.AddFrac(b)
 					break
 				}
+				p.num.Frac = p.num.Frac*10 + uint64(b-'0')
+				p.num.Div *= 10.0
 			}
 			off += i
 			if digitMap[b] == numDigit {
@@ -560,6 +560,9 @@ func (p *Parser) parseBuffer(buf []byte, last bool) (err error) {
 			off += i
 		case expSign:
 			p.mode = expZeroMap
+			if 0 < len(p.num.BigBuf) {
+				p.num.BigBuf = append(p.num.BigBuf, b)
+			}
 			if b == '-' {
 				p.num.NegExp = true
 			}
